@@ -42,6 +42,8 @@ def truth(v):
     """Python truthiness: returns a python bool or a z3 BoolRef."""
     if v is None:
         return False
+    if isinstance(v, z3.BoolRef):
+        return v
     if isinstance(v, (bool, int, float, str, bytes, tuple, frozenset)):
         return bool(v)
     if isinstance(v, Sym):
